@@ -210,6 +210,11 @@ static void c02_hang(const char *where)
                    s == 1 ? "stdout" : "stderr");
       return;
     }
+    /* the child may be stuck itself: on its stdin, which the parent has closed (or fed at start-up) - then it is waiting for an end-of-file that must come */
+    if (CH && CH->state == CH_RUNNING && CH->pos < CH->nsteps && (CH->steps[CH->pos].op == 'R' || CH->steps[CH->pos].op == 'E') && (fed_closed || input_data)) {
+      vk_violation("C02", "stdin-eof-not-seen", key, "the parent closed stdin but the child's read never sees end-of-file (somebody still holds the pipe's write end)");
+      return;
+    }
     vk_hit(CL_HANG_DEADLOCK);
     return;
   }
@@ -279,6 +284,8 @@ static void check_stdin_at_end(void)
   }
 }
 
+static int c02_close_std; /* bit i: the parent's descriptor i is closed before the start */
+
 struct c02cfg {
   int script, size, em, pv, insize;
   int fork; /* the child is the forked side of a fork-mode start (no exec: nothing closes descriptors for the library) */
@@ -294,13 +301,15 @@ static void c02_body(const struct c02cfg *c, int sched_bound)
   vk_cfg.sched_bound = sched_bound;
   vk_cfg.vlimit = 24;
   vk_cfg.hello_lite = 1;
-  snprintf(key, sizeof key, "h_c02|script=%s|size=%d|stderr=%s|loop=%s|stdin=%d%s", sd->fmt, c->size, em_names[c->em], pv_names[c->pv], c->insize, c->fork ? "|fork-mode" : "");
+  snprintf(key, sizeof key, "h_c02|script=%s|size=%d|stderr=%s|loop=%s|stdin=%d%s|std-closed=%d", sd->fmt, c->size, em_names[c->em], pv_names[c->pv], c->insize, c->fork ? "|fork-mode" : "", c02_close_std);
   hx_desc("%s", key);
   snprintf(key, sizeof key, "h_c02|stderr=%s|loop=%s%s", em_names[c->em], pv_names[c->pv], c->fork ? "|fork-mode" : "");
   hx_begin();
+  for (int i = 0; i < 3; i++)
+    if (c02_close_std & (1 << i)) close(i);
   vk_set_hang_hook(c02_hang);
   /* comparable with a free run: small payloads (one kernel write each) and loops whose results do not depend on how fast the child is */
-  S->free_run_ok = c->size <= 7 && c->insize <= 7 && c->pv != PV_NONBLOCK && c->pv != PV_NB_READ_FIRST && c->pv != PV_SEQ_EINTR && !c->fork;
+  S->free_run_ok = c->size <= 7 && c->insize <= 7 && c->pv != PV_NONBLOCK && c->pv != PV_NB_READ_FIRST && c->pv != PV_SEQ_EINTR && !c->fork && !c02_close_std;
   vk_autonomous_gap_ms = 60; /* no timeouts in this harness: the gap only has to dwarf the parent's own call sequence */
   memset(got, 0, sizeof got);
   memset(eof_seen, 0, sizeof eof_seen);
@@ -481,10 +490,11 @@ static void build(void)
 }
 
 #define NAFTER 12
+#define NSTD2 6 /* the stdin scripts with two or three standard descriptors of the parent closed: the pipe ends the library makes land on 0-2 */
 static long c02_n(int tier)
 {
   build();
-  return ncfgs[tier] + 3 + NAFTER; /* + the 64 KiB set and one 2 MiB transfer + writes after the reader has gone */
+  return ncfgs[tier] + 3 + NAFTER + NSTD2; /* + the 64 KiB set and one 2 MiB transfer + writes after the reader has gone */
 }
 
 static void c02_big(int which);
@@ -493,6 +503,15 @@ static void c02_after_epipe(int which);
 static void c02_run(int tier, long cfg)
 {
   build();
+  if (cfg >= ncfgs[tier] + 3 + NAFTER) {
+    int k = (int) (cfg - ncfgs[tier] - 3 - NAFTER);
+    static const int masks[3] = { 3, 5, 7 };
+    struct c02cfg c = { (k & 1) ? 9 /* start-up input */ : 6 /* write, close */, 0, EM_PIPE, PV_SEQ4096, 7, 0 };
+    c02_close_std = masks[k / 2];
+    c02_body(&c, 1);
+    c02_close_std = 0;
+    return;
+  }
   if (cfg >= ncfgs[tier] + 3) { c02_after_epipe((int) (cfg - ncfgs[tier] - 3)); return; }
   if (cfg >= ncfgs[tier]) { c02_big((int) (cfg - ncfgs[tier])); return; }
   const struct c02cfg *c = &cfgs[tier][cfg];
